@@ -828,7 +828,7 @@ def publicize_struct(item, stats):
 
 def extract_struct(path, name, kind, macro, args, stats):
     text = get_text(path, macro, args)
-    ms = list(re.finditer(r"(?:pub(?:\([^)]*\))?\s+)?%s\s+%s\b" % (kind, re.escape(name)), text))
+    ms = list(re.finditer(r"(?:pub(?:\([^)]*\))?\s+)?%s\s+%s\b" % (kind, re.escape(name)), mask_trivia(text)))
     if len(ms) != 1:
         raise ExtractError("%s %s: %d matches in %s" % (kind, name, len(ms), path))
     i = ms[0].start()
@@ -1388,7 +1388,7 @@ def extract_impl(path, header_lit, macro, args, handle, spec, stats, canary):
 
 def extract_free_fn(path, name, macro, args, clauses, loops, rewrites, stats, canary, trusted=False, byref=False, ret="r", sigrewrites=()):
     text = get_text(path, macro, args)
-    ms = [m for m in re.finditer(r"(?:pub(?:\([^)]*\))?\s+)?fn\s+%s\b" % re.escape(name), text)]
+    ms = [m for m in re.finditer(r"(?:pub(?:\([^)]*\))?\s+)?fn\s+%s\b" % re.escape(name), mask_trivia(text))]
     if len(ms) != 1:
         raise ExtractError("fn %s: %d matches in %s" % (name, len(ms), path))
     i = ms[0].start()
@@ -1531,10 +1531,10 @@ def generate_(template_path, variant, canary=False):
             kv, rest = parse_kv(toks[1:])
             path, name = rest[0], rest[1]
             text_ = get_text(path, kv.get("macro"), kv["args"].split(";") if "args" in kv else None)
-            ms = list(re.finditer(r"(?:pub(?:\([^)]*\))?\s+)?type\s+%s\b[^;]*;" % re.escape(name), text_))
+            ms = list(re.finditer(r"(?:pub(?:\([^)]*\))?\s+)?type\s+%s\b[^;]*;" % re.escape(name), mask_trivia(text_)))
             if len(ms) != 1:
                 raise ExtractError("type %s: %d matches in %s" % (name, len(ms), path))
-            item = re.sub(r"^(pub(\([^)]*\))?\s+)?type", "pub type", ms[0].group(0))
+            item = re.sub(r"^(pub(\([^)]*\))?\s+)?type", "pub type", text_[ms[0].start():ms[0].end()])
             out.append(item)
             stats["verbatim_lines"] += item.count("\n") + 1
             stats["sources"].append("type %s::%s" % (path, name))
